@@ -84,6 +84,12 @@ def run_inbound(case, R):
 
     async def go():
         for cs in cutsets:
+            # an earlier session of the same process that died in the middle of a block: nothing of it may reach this one
+            old = SecureHomeKitProtocol(_Conn([]), A2C, C2A)
+            try:
+                old.data_received(stream[:max(1, min(len(stream) - 1, 2 + len(cs) % 23))])
+            except Exception:  # noqa: BLE001
+                pass
             log = []
             p = SecureHomeKitProtocol(_Conn(log), A2C, C2A)
             p.result_cbs = [_Fut(log) for _ in range(n_http + 2)]
